@@ -129,5 +129,8 @@ pub fn run(ctx: &Ctx) {
     ctx.pbt("ephemeral_half_supplied", ctx.n(4_000, 100_000), || (gen::small_plain(300), gen::rsched_strategy(), any::<[u64; 6]>()).prop_map(|(plain, prs, k)| Pair { plain, prs, s1: k[0], r1: k[1], s2: k[2], r2: k[3], e: k[4], p: k[5] }), check_ehalf);
     ctx.pbt("password_swap_pairs", ctx.n(100, 2_000), || (gen::small_plain(400), gen::rsched_strategy(), gen::password_strategy(), gen::password_strategy(), any::<u64>()).prop_map(|(plain, prs, w1, w2, salt)| PassPair { plain, prs, w1, w2, salt }), check_pass_pair);
     ctx.shrink_iters.store(20, std::sync::atomic::Ordering::Relaxed);
+    // large regular files whose length is an exact multiple of the chunk size, one chunk more, one byte more: the length formula has no exceptions
+    { let mut v = Vec::new(); for (i, len) in [128 * CS, 128 * CS + 1, 129 * CS, 256 * CS, 300 * CS - 1].into_iter().enumerate() { for pass_mode in [false, true] { v.push(CliCase { len, names: ("sender-name-large".into(), "recipient-name-large".into()), seed: 90 + i as u64, pass_mode, to_stdout: false, fifo: false }); } }
+      ctx.sse_vec("cli_large_exact_multiples", "8 MiB, 8 MiB + 1 B, 8 MiB + 64 KiB, 16 MiB, 300 chunks - 1 B through the binary, both modes, file to file", v, check_cli); }
     ctx.pbt("cli_files", ctx.n(40, 800), || (prop_oneof![3 => 0usize..3000, 1 => Just(CS), 1 => Just(CS + 1), 1 => CS..3 * CS], ("[a-zA-Z0-9]{12,24}", "[a-zA-Z0-9]{12,24}"), any::<u64>(), prop::bool::weighted(0.25), any::<bool>(), prop::bool::weighted(0.3)).prop_map(|(len, names, seed, pass_mode, to_stdout, fifo)| CliCase { len, names, seed, pass_mode, to_stdout, fifo }), check_cli);
 }
